@@ -136,13 +136,16 @@ def run_case(case):
         bump("calls_judged")
         bump("transport:" + call["transport"])
         mech = {"transport": call["transport"], "form": call["form"], "rpc": call["rpc"]}
+        from google.api import client_pb2 as _cpb
+        if any(part.strip() == "uuid" for sg in methods[call["rpc"]].options.Extensions[_cpb.method_signature] for part in sg.split(",")):
+            mech["signature_names_a_field_called_uuid"] = True
 
         def bad(clause, detail, **extra):
             viol.append({"clause": clause, "detail": {"rpc": call["rpc"], "transport": call["transport"], "form": call["form"],
                                                       "state": call["state"], "why": detail}, "mech": {**mech, **extra}})
 
         if r.get("error"):
-            bad("client-raised", r["error"])
+            bad("client-raised", r["error"], exc_type=r["error"].get("type"))
             continue
         sent = model.parse(call["req_type"], rdm.unb64(call["request"]))
         if call["transport"] == "rest":
